@@ -746,12 +746,14 @@ func main() {
 	// with pointers, a recursive and an imported struct behind pointers
 	elems := []*ty.Ty{b("int"), b("int64"), b("uint8"), b("string"), b("float64"), b("bool"), n(0), n(1), n(2),
 		n(5), p(n(5)), p(n(6)), ty.Sl(b("int")), n(6), p(n(7)), p(n(17)), b("complex128"), n(3),
-		ty.Sl(b("byte")), ty.Sl(b("string")), ty.Ar(2, b("int")), n(22)}
+		ty.Sl(b("byte")), ty.Sl(b("string")), ty.Ar(2, b("int")), n(22),
+		// pointers to basics: ordered and compared through the pointer, nil first, never by identity
+		p(b("int")), p(b("string"))}
 	keys := []*ty.Ty{b("int"), b("string"), n(0), n(5), ty.Ar(2, b("int")), b("float64")}
 	results := []*ty.Ty{b("int"), b("string"), p(n(5)), ty.Sl(b("int")), n(5), b("bool"), b("float64"), n(1)}
 	cap, maxLen, nRandom := 6, 7, 8
 	if *thorough {
-		elems = append(elems, b("int8"), b("uint64"), b("float32"), b("int32"), p(b("int")), ty.Sl(b("int8")),
+		elems = append(elems, b("int8"), b("uint64"), b("float32"), b("int32"), p(b("float64")), ty.Sl(b("int8")),
 			ty.M(b("string"), b("int")), n(14), n(10), p(n(8)), n(20), n(16), ty.Sl(p(n(5))), n(11), ty.Sl(ty.Sl(b("byte"))), ty.Ar(2, ty.Sl(b("byte"))))
 		keys = append(keys, n(1), n(2), b("bool"), b("uint8"), n(14), ty.Ar(2, n(5)))
 		results = append(results, p(n(6)), n(0), b("uint8"), ty.M(b("string"), b("int")))
